@@ -28,10 +28,12 @@ Definition set_stmt (t : ty) (fs : list val) (d : data) : data :=
 Fixpoint eqvb (p t : val) {struct p} : bool :=
   match p, t with
   | Nil a, Nil b => N.eqb a b
+  | Nil a, Ptr tb _ => N.eqb a T_P_ast_Object
   | Nil a, Slice b [] => N.eqb a b && dots_capable a
   | Pos a, Pos b => Bool.eqb a b
   | Atom ta a, Atom tb b => N.eqb ta tb && N.eqb a b
-  | Ptr ta p', Ptr tb t' => eqvb p' t'
+  | Ptr ta p', Ptr tb t' => N.eqb ta T_P_ast_Object || eqvb p' t'
+  | Ptr ta _, Nil b => N.eqb ta T_P_ast_Object      (* *ast.Object: never compared *)
   | Iface ta p', Iface tb t' => eqvb p' t'
   | Struct ta ps, Struct tb ts => N.eqb ta tb &&
       (fix go (ps ts : list val) {struct ps} : bool :=
@@ -97,6 +99,7 @@ Section Match.
         end
     | Ptr tp ps =>
         let generic := fun (_ : unit) =>
+          if N.eqb tp T_P_ast_Object then Some d else     (* *ast.Object always matches *)
           match t with
           | Ptr _ ts => mtch ps ts d
           | _ => None
@@ -128,6 +131,7 @@ Section Match.
         match t with
         | Nil _ => Some d
         | Slice _ [] => if dots_capable tp then Some d else None   (* compileSliceDots: nil pattern list = empty *)
+        | Ptr _ _ => if N.eqb tp T_P_ast_Object then Some d else None   (* *ast.Object always matches *)
         | _ => None
         end
     | Pos a => match t with Pos b => if Bool.eqb a b then Some d else None | _ => None end
@@ -197,7 +201,7 @@ Section Match.
 
   Definition dots_stmt (i : N) : val :=
     Iface T_ast_Stmt (Ptr T_P_ast_ExprStmt (Struct T_ast_ExprStmt
-      [Iface T_ast_Expr (Ptr T_P_pgo_Dots (Struct T_pgo_Dots [Atom T_pgo_DotsPos i]))])).
+      [Iface T_ast_Expr (Ptr T_P_pgo_Dots (Struct T_pgo_Dots [Nil T_ast_Expr; Atom T_pgo_DotsPos i]))])).
 
   (* the list the container matcher/replacer is compiled from *)
   Definition stmt_pattern (id_start id_end : N) (stmts : list val) : val :=
